@@ -203,3 +203,60 @@ Theorem C15_shipped_definitions :
   forallb (fun p => defs_match (snd p) (snd (fst p))) (combine shipped_defs shipped) = true.
 Proof. split; vm_compute; reflexivity. Qed.
 Print Assumptions C15_shipped_definitions.
+
+(** * From the definitions to the graph the [State] model of C01 / C02 works on (Compose/FromDictState.v; docs/Compose.md).
+
+    Compose/DagState.v starts from definitions whose parameter lists are GIVEN ([DagState.DLinked axis params f]) and calls
+    [DagState.dag_of_defs] "the mapping the constructor receives".  [FromDictState.sdefs V hv ax fs ds] are those definitions
+    obtained from the signature-level definitions [ds] of this file (parameters := what [get_named_parameters] returns;
+    [hv] / [ax] / [fs] = the hyper-parameter values, axis flags and node functions the DAG never looks at).
+    Qualified names: [DagState.vdef] is not the [vdef] of this file. *)
+From Leaspy Require State.StateModel State.StateNow Compose.DagState Compose.FromDictState Compose.FromDictStateProofs Compose.FromDictStateExamples
+                    Compose.FromDictStateShipped.
+
+(** The [direct_ancestors] mapping [from_dict] derives from the signatures IS [dag_of_defs] of the State-level definitions,
+    and [from_dict] accepts exactly when no signature is refused and the constructor model accepts that mapping, with the same
+    result: the hypothesis [build (dag_of_defs defs) = Ok r] of every [_built] theorem of C01 / C02 is [from_dict ds = FOk r].
+    Example: [FromDictStateExamples.sx_accepted], [sx_params]. *)
+Theorem C15_from_dict_is_build_of_state_definitions :
+  forall (V : Type) (hv : nat -> V) (ax : nat -> bool) (fs : nat -> list V -> V) (ds : list vdef),
+    (forall g, direct_ancestors ds = Some g -> DagState.dag_of_defs (FromDictState.sdefs V hv ax fs ds) = g) /\
+    (~ bad_signature ds -> direct_ancestors ds = Some (DagState.dag_of_defs (FromDictState.sdefs V hv ax fs ds))) /\
+    (forall r, from_dict ds = FOk r <->
+               ~ bad_signature ds /\ build (DagState.dag_of_defs (FromDictState.sdefs V hv ax fs ds)) = Ok r).
+Proof. exact FromDictStateProofs.from_dict_is_build_of_state_definitions. Qed.
+Print Assumptions C15_from_dict_is_build_of_state_definitions.
+
+(** Computed on the definitions regenerated from the running code (coq/gen/GenC15Defs.v): [from_dict] accepts the definitions
+    of every shipped configuration, hence ([FromDictState.state_sound_from_definitions]) for each of them, whatever the value
+    type, the hyper-parameter values, the node functions and the history: the State graph obtained from the SIGNATURES is well
+    formed, has one node per variable, its parents are exactly the named parameters, and every successful read after a
+    history without per-individual revert (with [F_mix]: after any history respecting the documented precondition) is the
+    from-scratch value. *)
+Theorem C15_shipped_definitions_state :
+  shipped_defs <> [] /\
+  forall lbl ds, In (lbl, ds) shipped_defs ->
+    exists r, from_dict ds = FOk r /\ FromDictState.state_sound_from_definitions ds r.
+Proof. exact FromDictStateShipped.shipped_definitions_state_sound. Qed.
+Print Assumptions C15_shipped_definitions_state.
+
+(** Non-vacuity of the conclusion, on the FIRST regenerated shipped definition list ([FromDictStateShipped.sh_ds]; integer
+    values, hyper-parameters = 1, node [i] = [i] + the sum of its arguments): it is accepted, has linked and settable variables;
+    after "fork on; every settable variable := 2" EVERY variable reads [Ok v], and [v] is the from-scratch value
+    ([C01_never_stale_full_reverts_from_definitions] applied).  The statement mentions no value: it survives regeneration. *)
+Theorem C15_shipped_first_history :
+  from_dict FromDictStateShipped.sh_ds = FOk FromDictStateShipped.sh_r /\
+  (0 <? StateModel.gn FromDictStateShipped.sh_g)
+    && existsb (StateModel.linked FromDictStateShipped.sh_g) (seq 0 (StateModel.gn FromDictStateShipped.sh_g))
+    && existsb (StateModel.settable FromDictStateShipped.sh_g) (seq 0 (StateModel.gn FromDictStateShipped.sh_g)) = true /\
+  exists st,
+    nth_error (fst (StateNow.run_now FromDictStateShipped.sh_g FromDictStateShipped.sh_sem
+                      (StateModel.init_store FromDictStateShipped.sh_g) FromDictStateShipped.sh_ops)) 0 = Some st /\
+    forall i, i < StateModel.gn FromDictStateShipped.sh_g -> exists v,
+      snd (StateNow.step_now FromDictStateShipped.sh_g FromDictStateShipped.sh_sem
+             (fst (StateNow.run_now FromDictStateShipped.sh_g FromDictStateShipped.sh_sem
+                     (StateModel.init_store FromDictStateShipped.sh_g) FromDictStateShipped.sh_ops))
+             (StateModel.Get 0 i)) = StateModel.Ok v /\
+      StateModel.scratch FromDictStateShipped.sh_g (StateModel.values st) i = Some v.
+Proof. exact FromDictStateShipped.shipped_first_history. Qed.
+Print Assumptions C15_shipped_first_history.
